@@ -484,6 +484,16 @@ func init() {
 					map[string]interface{}{"type": t, "opt": opt, "check": check, "envLen": 1, "cliLen": 1, "maxEnv": 1, "withArg": 0, "ptr": 1, "sibling": 1})
 				up.Samples = 2
 				us = append(us, up)
+				if check == "C06" || check == "C13" {
+					// the short declaration functions XxxOpt(name, value, desc) / XxxOptPtr(&v, ...): no
+					// environment, no SetByUser; command line else default
+					for api := 2; api <= 3; api++ {
+						us2 := unit(cli, "H_prec", fmt.Sprintf("H_prec[%s %s short API%s, cli<=1B]", tn, role, map[int]string{2: "", 3: " Ptr"}[api]),
+							map[string]interface{}{"type": t, "opt": opt, "check": check, "envLen": 1, "cliLen": 1, "maxEnv": 0, "withArg": 0, "ptr": api, "sibling": api - 2})
+						us2.Samples = 1
+						us = append(us, us2)
+					}
+				}
 				if opt == 1 && (t == 2 || t == 5 || t == 0) {
 					u2 := unit(cli, "H_prec", fmt.Sprintf("H_prec[%s opt + positional, cli<=%dB]", tn, cliLen),
 						map[string]interface{}{"type": t, "opt": opt, "check": check, "envLen": 1, "cliLen": cliLen, "maxEnv": 0, "withArg": 1, "ptr": 0, "sibling": 0})
@@ -495,7 +505,7 @@ func init() {
 		return us
 	}
 	precBounds := func(c *checkCtx) map[string]interface{} {
-		return map[string]interface{}{"instances": "7 built-in types x {option, argument}", "default": "symbolic (strings <=2 bytes, ints 64-bit, bools; floats concrete); lists of 0-2 elements",
+		return map[string]interface{}{"instances": "7 built-in types x {option, argument} x {struct API, Ptr struct API; for C06/C13 also the short XxxOpt/XxxArg functions and their Ptr flavours: all 56 declaration functions}", "default": "symbolic (strings <=2 bytes, ints 64-bit, bools; floats concrete); lists of 0-2 elements",
 			"environment": map[bool]string{true: "0-1 listed variable, value <=2 ASCII bytes", false: "0-2 listed variables, value <=3 ASCII bytes"}[c.quick()], "command line": "the value 0, 1 or 2 times, payload of 0-" + map[bool]string{true: "2", false: "3 (2 for list types)"}[c.quick()] + " arbitrary bytes"}
 	}
 	precAssume := append([]string{"strconv.ParseBool/ParseInt/ParseFloat are uninterpreted functions shared by implementation and oracle; models and counterexamples are made consistent with the real strconv by lazily added ground facts and a corpus of edge-case tokens", "environment values are ASCII without NUL"}, commonAssumptions...)
